@@ -186,3 +186,10 @@ pub assume_specification[ <i128 as core::convert::From<u64>>::from ](x: u64) -> 
 pub assume_specification[ <i128 as core::convert::From<u32>>::from ](x: u32) -> (r: i128) ensures r == x as i128;
 pub assume_specification[ <i128 as core::convert::From<u16>>::from ](x: u16) -> (r: i128) ensures r == x as i128;
 pub assume_specification[ <i128 as core::convert::From<u8>>::from ](x: u8) -> (r: i128) ensures r == x as i128;
+
+// `usize::from_str` (grammar actions): Ok iff the digit string denotes a value that fits
+pub uninterp spec fn usize_from_str(s: Seq<char>) -> Option<usize>;
+pub assume_specification[ <usize as core::str::FromStr>::from_str ](s: &str) -> (r: core::result::Result<usize, core::num::ParseIntError>)
+    ensures
+        r is Ok <==> usize_from_str(s@) is Some,
+        r is Ok ==> r->Ok_0 == usize_from_str(s@)->0;
